@@ -97,3 +97,52 @@ Lemma node_up_effect c s k h :
   get_by_ip (s_ring s) k = (Some h, true) -> accept c h = true ->
   node_up c s k = Some (start_pool_fill s h).
 Proof. intros G Ha. unfold node_up. rewrite G, Ha. reflexivity. Qed.
+
+(* ---------------------------------------------------------------- the hand-over of a batch to the callback *)
+(* flush starts the callback on its own goroutine with the batch and begins a new buffer; the callback
+   reads the batch some time later, after any number of further debounce and flush calls. *)
+Inductive dop :=
+| DFrame (f : nevent)    (* debounce(frame) *)
+| DFlush                 (* the timer fires: flush *)
+| DRead.                 (* the oldest started callback reads its batch *)
+
+(* (buffer, batches handed over and not yet read, batches read so far) *)
+Definition dstate := (list nevent * list (list nevent) * list (list nevent))%type.
+
+Definition dstep (st : dstate) (o : dop) : dstate :=
+  let '(buf, pending, seen) := st in
+  match o with
+  | DFrame f => (debounce buf f, pending, seen)
+  | DFlush => match buf with [] => st | _ => ([], pending ++ [buf], seen) end
+  | DRead => match pending with [] => st | b :: tl => (buf, tl, seen ++ [b]) end
+  end.
+
+Definition drun (ops : list dop) (st : dstate) : dstate := fold_left dstep ops st.
+
+(* what the windows are, regardless of when callbacks read: the frames between consecutive flushes, capped *)
+Fixpoint windows_of (ops : list dop) (buf : list nevent) : list (list nevent) :=
+  match ops with
+  | [] => []
+  | DFrame f :: tl => windows_of tl (debounce buf f)
+  | DFlush :: tl => match buf with [] => windows_of tl [] | _ => buf :: windows_of tl [] end
+  | DRead :: tl => windows_of tl buf
+  end.
+
+(* every batch a callback reads is exactly the window that was flushed, in order, whatever arrived
+   between the flush and the read *)
+Lemma handover_exact : forall ops buf pending seen,
+  let '(_, pending', seen') := drun ops (buf, pending, seen) in
+  seen' ++ pending' = seen ++ pending ++ windows_of ops buf.
+Proof.
+  induction ops as [|o tl IH]; intros buf pending seen.
+  - simpl. rewrite app_nil_r. reflexivity.
+  - unfold drun. cbn [fold_left]. fold (drun tl (dstep (buf, pending, seen) o)).
+    destruct o as [f| |]; cbn [dstep windows_of].
+    + apply IH.
+    + destruct buf as [|x xs]; [apply IH|].
+      specialize (IH [] (pending ++ [x :: xs]) seen). destruct (drun tl ([], pending ++ [x :: xs], seen)) as [[b p] s'].
+      rewrite IH, <- app_assoc. reflexivity.
+    + destruct pending as [|b ptl]; [apply IH|].
+      specialize (IH buf ptl (seen ++ [b])). destruct (drun tl (buf, ptl, seen ++ [b])) as [[b' p] s'].
+      rewrite IH, <- app_assoc. reflexivity.
+Qed.
